@@ -29,6 +29,7 @@ VA, VK = 1, 2
 K_METHODS = {30: ('pop', "'k0'"), 31: ('get', "'k0'"), 32: ('setdefault', "'zz'"),
              33: ('__contains__', "'k0'"), 34: ('__getitem__', "'k0'")}
 A_METHODS = {40: ('count', '0'), 41: ('__contains__', '0'), 42: ('__getitem__', '0')}
+SETITEM = 50        # kwargs.__setitem__(<c>, <c>) inside an immediately called lambda
 CALLEES = [5, 6]
 HELPERS = [12, 13]
 ALIASES = [20, 21]
@@ -43,6 +44,8 @@ def ident(i):
     for tab in (K_METHODS, A_METHODS):
         if i in tab:
             return tab[i][0]
+    if i == SETITEM:
+        return '__setitem__'
     return 'n%d' % i
 
 
@@ -55,6 +58,7 @@ _ATTR_ID = {}
 for tab in (K_METHODS, A_METHODS):
     for i, (nm, _) in tab.items():
         _ATTR_ID.setdefault(nm, i)
+_ATTR_ID['__setitem__'] = SETITEM
 
 
 def gen_stmt(rng, depth, budget):
@@ -80,7 +84,11 @@ def gen_stmt(rng, depth, budget):
         return ('pass', rng.choice(HELPERS), star())
     if r < 0.83:
         return ('alias', rng.choice(ALIASES), star())
-    if r < 0.88 or depth >= 2 or budget[0] <= 0:
+    if r < 0.86:
+        return ('other', rng.choice(HELPERS))
+    if r < 0.89:
+        return ('lam', SETITEM)          # outside the theorems' fragment: tree and flags are still compared
+    if depth >= 2 or budget[0] <= 0:
         return ('other', rng.choice(HELPERS))
     budget[0] -= 1
     a = [gen_stmt(rng, depth + 1, budget) for _ in range(rng.randrange(1, 4))]
@@ -116,6 +124,8 @@ def coq_stmt(s):
         return '(SAlias %d %s)' % (s[1], st(s[2]))
     if t == 'other':
         return '(SOther %d)' % s[1]
+    if t == 'lam':
+        return '(SLambdaMut %d)' % s[1]
     return '(SIf %s %s)' % (coq_block(s[1]), coq_block(s[2]))
 
 
@@ -169,6 +179,9 @@ def render(prog, assign):
             elif t == 'other':
                 site()
                 lines.append('%s%s(0)' % (pad, ident(s[1])))
+            elif t == 'lam':
+                site()
+                lines.append("%s(lambda: kwargs.__setitem__('zz', 0))()" % pad)
             else:
                 lines.append('%sif %s:' % (pad, 'True' if assign.get(id(s), True) else 'False'))
                 emit(s[1], ind + 1)
@@ -232,7 +245,13 @@ def enc_py(node, out):
     elif isinstance(node, ast.keyword):
         out += [4, 0 if node.arg is None else _INV[node.arg] + 1]
         enc_py(node.value, out)
-    elif isinstance(node, (ast.FunctionDef, ast.Lambda, ast.Nonlocal)):
+    elif isinstance(node, ast.Lambda):
+        a = node.args
+        pos = list(a.posonlyargs) + list(a.args)
+        out += [5, len(pos)] + [_INV[x.arg] for x in pos] + [len(a.kwonlyargs)] + [_INV[x.arg] for x in a.kwonlyargs]
+        out += [0 if a.vararg is None else _INV[a.vararg.arg] + 1, 0 if a.kwarg is None else _INV[a.kwarg.arg] + 1, 1]
+        enc_py(node.body, out)
+    elif isinstance(node, (ast.FunctionDef, ast.Nonlocal)):
         raise ValueError('not in the grammar')
     else:
         children = []
@@ -337,7 +356,7 @@ def fwd_sites(prog):
             if t == 'fwd':
                 out[counter[0]] = (s[2], set(ident(k) for k in s[3]))
                 counter[0] += 1
-            elif t in ('meth', 'pass', 'other'):
+            elif t in ('meth', 'pass', 'other', 'lam'):
                 counter[0] += 1
             elif t == 'if':
                 go(s[1])
@@ -554,6 +573,8 @@ def prog_from_coq(text):
             r = ('alias', y, star())
         elif h == 'SOther':
             r = ('other', int(nxt()))
+        elif h == 'SLambdaMut':
+            r = ('lam', int(nxt()))
         elif h == 'SIf':
             a = block()
             b = block()
